@@ -152,9 +152,9 @@ def gen_spec(seed):
         "clients": [],
     }
     if retry:
-        kinds = ["forged", "replayed-other-address", "other-instance", "truncated", "no-token", "forged-short"]
+        kinds = ["forged", "replayed-other-address", "replayed-same-host-other-port", "other-instance", "truncated", "no-token", "forged-short"]
         rng.shuffle(kinds)
-        spec["inject"] = kinds[: rng.choice([2, 3, 6])]
+        spec["inject"] = kinds[: rng.choice([2, 3, 7])]
     budget = 90000 // n
     for ci in range(n):
         kind = rng.choices(
@@ -1108,6 +1108,10 @@ class Scenario:
                 tok = self._urnd(self.rng.choice([1, 7, 16, 255, 257]))
             elif kind == "replayed-other-address":
                 tok = token
+            elif kind == "replayed-same-host-other-port":
+                # a token is issued to an address = (host, port): the same host on another port did not prove anything
+                tok = token
+                src = (addr[0], 1024 + (addr[1] + 7919) % 60000) + tuple(addr[2:])
             elif kind == "other-instance":
                 from aioquic.quic.retry import QuicRetryTokenHandler
 
